@@ -424,3 +424,41 @@ Definition run (md : mode) (fuel : nat) (p : parser) (cfg : cv) : res :=
        end)
   | _ => Err (EBadValue [] [])
   end.
+
+(* ---- parser construction history: link_arguments attempts ------------------------------------------------
+   ActionLink.__init__ (jsonargparse/_link_arguments.py): every validity check (source / target actions, target-key form,
+   instantiation-cycle check) comes first; only a link that passed them is registered, and the last thing it does to
+   parser.required_args is `required_args.remove(target)`.  A rejected attempt (ValueError, caught by the program) leaves
+   the parser as it was.  Whether an attempt is accepted is NOT modelled here (cycle rules: property C16); the outcome is
+   part of the history.  Links applied on instantiation only: nothing else changes for parsing / validation (the target
+   stays a defined key). *)
+Record lnk := { l_tgt : list str; l_ok : bool }.
+
+Fixpoint unrequire (path : list str) (d : decl) {struct d} : decl :=
+  match path, d with
+  | [], DArg _ => DArg false
+  | k :: rest, DGroup fs =>
+      DGroup ((fix go (fs : list (str * decl)) :=
+                 match fs with
+                 | [] => []
+                 | (k', d') :: t => (k', if str_eqb k k' then unrequire rest d' else d') :: go t
+                 end) fs)
+  | k :: rest, DData r fs =>
+      DData r ((fix go (fs : list (str * decl)) :=
+                  match fs with
+                  | [] => []
+                  | (k', d') :: t => (k', if str_eqb k k' then unrequire rest d' else d') :: go t
+                  end) fs)
+  | _, _ => d
+  end.
+
+Definition unrequire_args (path : list str) (fs : args) : args :=
+  match path with
+  | [] => fs
+  | k :: rest => map (fun kd => (fst kd, if str_eqb k (fst kd) then unrequire rest (snd kd) else snd kd)) fs
+  end.
+
+Definition apply_link (p : parser) (l : lnk) : parser :=
+  if l_ok l then {| p_args := unrequire_args (l_tgt l) (p_args p); p_sub := p_sub p |} else p.
+
+Definition with_links (p : parser) (ls : list lnk) : parser := fold_left apply_link ls p.
